@@ -6,6 +6,10 @@ CLAIMED = {
    text="Every obligation generated from the current source of lazy_misc.blocks (3 modes: hop None / <= size / > size) and lazy_misc.zero_pad is discharged by z3 for all input lengths (finite or endless), all sizes, hops, pad values and element values: block k is the window k*hop..k*hop+size-1, complete blocks are all produced, the padded tail is produced iff it would hold more than max(size-hop,0) real items, zero_pad is left pad ++ sequence ++ right pad; read counts per output (C02 clauses).",
    note="Trusted: pyvc VC generator, z3/cvc5, models of deque(maxlen)/xrange/iterator protocol; ints unbounded; elements uninterpreted. Stream.blocks delegation is checked through the Stream constructor contract (C03).",
    technique="deductive verification: loop invariants + yield contracts in sidecar, VCs from the real AST, z3"),
+ "C20": dict(category="proof",
+   text="VCs from the real source of zcross, clip (4 None-modes, each generator expression verified as a generator), unwrap, maverage.deque (outer + nested generator, prefix-sum specification function with an induction lemma) and accumulate.func are all discharged for every input length and every real sample value: zcross against the sign automaton of the statement, clip pointwise/bounds/idempotence/ValueError, unwrap (integer ghost witness for 'multiples of step', no-jump-untouched, adjacent jump <= max(max_delta, step/2)), moving average == mean of the last size samples with zero history, running sums; one output per input and k+1 reads (C02). NOT yet under contract in this snapshot: maverage.recursive/fir, envelope.*, amdf, accumulate.z (listed in evidence).",
+   note="floats treated as reals (size*(1/size)==1); real modulo modelled by an uninterpreted integer quotient FDIV constrained at each use; @tostream wrapping accounted by the Stream constructor model; pyvc + z3 trusted.",
+   technique="deductive verification: sidecar loop invariants, yield contracts, ghost witnesses, induction lemmas; VCs from the real AST; z3 (cvc5 on unknown)"),
 }
 NOT_APPLICABLE = {p: _PENDING for p in ["C%02d" % i for i in range(1, 21)]}
 NOT_APPLICABLE["C17"] = "thread interleavings and shutdown liveness: sequential function contracts cannot express or decide schedules or whole-history liveness; no ownership/rely-guarantee logic for Python threads is available here (DESIGN.md section 5)"
